@@ -93,7 +93,7 @@ def install(mods):
     from ..loader import AutoStub
     dask = AutoStub("dask", {"delayed": delayed, "compute": lambda *a, **k: tuple(_compute(x) for x in a)})
     mods["dask"] = dask
-    mods["pandas"] = AutoStub("pandas")
+    mods["pandas"] = AutoStub("pandas", _pd_models())
     mods["pandas.api"] = AutoStub("pandas.api")
     mods["pandas.api.types"] = AutoStub("pandas.api.types", {"is_datetime64_any_dtype": lambda x: False})
     mods["pynndescent"] = AutoStub("pynndescent")
@@ -101,3 +101,92 @@ def install(mods):
     mods["pynndescent.distances"] = AutoStub("pynndescent.distances", {"named_distances": {}})
     mods["pomegranate"] = AutoStub("pomegranate")
     mods["iisignature"] = AutoStub("iisignature")
+
+
+# ---------------------------------------------------------------- pandas (intervals, cut)
+def _pd_models():
+    from ..values import Q, to_real, sand, ite, is_sym, SReal
+
+    class Interval:
+        def __init__(self, left, right, closed="right"):
+            if closed != "right":
+                raise Unmodelled("pd.Interval closed=%r" % (closed,))
+            self.left, self.right, self.closed = left, right, closed
+
+        def __repr__(self):
+            return "Interval(%r, %r]" % (self.left, self.right)
+
+        def contains(self, v):
+            return sand(self.left < v, v <= self.right)
+
+    class IntervalIndex:
+        def __init__(self, data, closed="right"):
+            self._iv = list(data)
+            for i in self._iv:
+                if not isinstance(i, Interval):
+                    raise Unmodelled("IntervalIndex from non-intervals")
+
+        @classmethod
+        def from_breaks(cls, breaks, closed="right"):
+            b = list(np._A(breaks)._flat()) if not isinstance(breaks, (list, tuple)) else list(breaks)
+            return cls([Interval(x, y) for x, y in zip(b, b[1:])])
+
+        def to_list(self):
+            return list(self._iv)
+
+        tolist = to_list
+
+        def __len__(self):
+            return len(self._iv)
+
+        def __iter__(self):
+            return iter(self._iv)
+
+        def __getitem__(self, i):
+            return self._iv[i]
+
+    def interval_range(start=None, end=None, periods=None, freq=None, closed="right"):
+        if start is None or end is None or periods is None or freq is not None:
+            raise Unmodelled("interval_range signature")
+        n = int(periods)
+        s, e = to_real(start), to_real(end)
+        br = [s + (e - s) * Q(i, n) for i in range(n)] + [e]
+        return IntervalIndex.from_breaks(br)
+
+    class _Counts:
+        def __init__(self, vals):
+            self.values = np.array(vals, dtype=np.int64) if vals else np.zeros(0, np.int64)
+
+    class _Cat:
+        def __init__(self, vals, bins):
+            self._v, self._b = vals, bins
+
+        def value_counts(self):
+            out = []
+            for iv in self._b:
+                c = 0
+                for v in self._v:
+                    c = c + ite(iv.contains(v), 1, 0) if is_sym(iv.contains(v)) else c + (1 if iv.contains(v) else 0)
+                out.append(c)
+            return _Counts(out)
+
+    def cut(x, bins, **kw):
+        if not isinstance(bins, IntervalIndex) or kw:
+            raise Unmodelled("pd.cut with non-IntervalIndex bins")
+        vals = list(np._A(x)._flat()) if not isinstance(x, (list, tuple)) else list(x)
+        ivs = bins.to_list()
+        # pandas refuses overlapping interval bins: two right-closed intervals overlap iff they share a point
+        for a in range(len(ivs)):
+            for b in range(a + 1, len(ivs)):
+                lo = ivs[a].left if bool(ivs[a].left >= ivs[b].left) else ivs[b].left
+                hi = ivs[a].right if bool(ivs[a].right <= ivs[b].right) else ivs[b].right
+                if bool(lo < hi):
+                    raise ValueError("Overlapping IntervalIndex is not accepted.")
+        # ... and the categorical it builds from them needs pairwise distinct intervals
+        for a in range(len(ivs)):
+            for b in range(a + 1, len(ivs)):
+                if bool(ivs[a].left == ivs[b].left) and bool(ivs[a].right == ivs[b].right):
+                    raise ValueError("Categorical categories must be unique")
+        return _Cat(vals, bins)
+
+    return {"Interval": Interval, "IntervalIndex": IntervalIndex, "interval_range": interval_range, "cut": cut}
